@@ -39,6 +39,30 @@ Definition reg_analysis (arch64 : bool) (ops : list operand) : N * bool :=
 
 Definition has_rt (mask rt : N) : bool := N.testbit mask rt.
 
+Definition avx_class (C : feat_consts) : list N := [f_AVX C; f_AVX_IFMA C; f_AVX_NE_CONVERT C; f_AVX_VNNI C; f_AVX2 C; f_F16C C; f_FMA C].
+Definition avx512_class (C : feat_consts) : list N := [f_AVX512_BF16 C; f_AVX512_BW C; f_AVX512_DQ C; f_AVX512_F C; f_AVX512_IFMA C; f_AVX512_VNNI C].
+
+(* "AVX vs AVX512 overlap" of query_features: which encoding the operands force *)
+Definition feat_use_evex (C : feat_consts) (q : query) (ii : inst_row) (mask : N) (high : bool) : bool :=
+  let ops := q_ops q in let nops := length ops in let id := q_id q in let opt := q_options q in
+  let use_evex := test opt (N.lor (o_evex C) (o_avx512mask C)) || q_extra_mask q ||
+                  negb (N.land mask (N.lor (bit rt_vec512) (bit rt_mask)) =? 0) || high in
+  let use_evex := use_evex ||
+    (if inl id (i_vpbroadcast C) then Nat.leb 2 nops && is_gp (opn ops 1)
+     else if inl id (i_vcvtpd C) then Nat.leb 2 nops && is_reg_type rt_vec256 (opn ops 0)
+     else if inl id (i_gather C) then Nat.eqb nops 2
+     else if inl id (i_shift C) then Nat.leb 2 nops && is_mem (opn ops 1)
+     else if id =? i_vpermpd C then Nat.leb 3 nops && negb (is_imm (opn ops 2))
+     else if id =? i_vpermq C then Nat.leb 3 nops && (is_mem (opn ops 1) || negb (is_imm (opn ops 2)))
+     else false) in
+  use_evex || (test (ir_cflags ii) (c_prefer_evex C) && negb (test opt (N.lor (o_vex C) (o_vex3 C)))).
+
+Definition feat_step_avx512 (C : feat_consts) (q : query) (ii : inst_row) (mask : N) (high : bool) (out : list N) : list N :=
+  if has_any out (avx_class C) && has_any out (avx512_class C) then
+    if feat_use_evex C q ii mask high then remove out (avx_class C)
+    else remove out [f_AVX512_BF16 C; f_AVX512_BW C; f_AVX512_DQ C; f_AVX512_F C; f_AVX512_IFMA C; f_AVX512_VL C; f_AVX512_VNNI C]
+  else out.
+
 Definition query_features (T : tables) (C : feat_consts) (q : query) : option (list N) :=
   if negb (q_id q <? N.of_nat (length (t_inst T))) then None else
   let ii := nthN (t_inst T) (q_id q) d_inst in
@@ -74,24 +98,7 @@ Definition query_features (T : tables) (C : feat_consts) (q : query) : option (l
       remove out [if is_avx2 then f_AVX C else f_AVX2 C]
     else out in
   (* AVX-class vs AVX-512 *)
-  let avx_class := [f_AVX C; f_AVX_IFMA C; f_AVX_NE_CONVERT C; f_AVX_VNNI C; f_AVX2 C; f_F16C C; f_FMA C] in
-  let out :=
-    if has_any out avx_class &&
-       has_any out [f_AVX512_BF16 C; f_AVX512_BW C; f_AVX512_DQ C; f_AVX512_F C; f_AVX512_IFMA C; f_AVX512_VNNI C] then
-      let use_evex := test opt (N.lor (o_evex C) (o_avx512mask C)) || q_extra_mask q ||
-                      negb (N.land mask (N.lor (bit rt_vec512) (bit rt_mask)) =? 0) || high in
-      let use_evex := use_evex ||
-        (if inl id (i_vpbroadcast C) then Nat.leb 2 nops && is_gp (opn ops 1)
-         else if inl id (i_vcvtpd C) then Nat.leb 2 nops && is_reg_type rt_vec256 (opn ops 0)
-         else if inl id (i_gather C) then Nat.eqb nops 2
-         else if inl id (i_shift C) then Nat.leb 2 nops && is_mem (opn ops 1)
-         else if id =? i_vpermpd C then Nat.leb 3 nops && negb (is_imm (opn ops 2))
-         else if id =? i_vpermq C then Nat.leb 3 nops && (is_mem (opn ops 1) || negb (is_imm (opn ops 2)))
-         else false) in
-      let use_evex := use_evex || (test (ir_cflags ii) (c_prefer_evex C) && negb (test opt (N.lor (o_vex C) (o_vex3 C)))) in
-      if use_evex then remove out avx_class
-      else remove out [f_AVX512_BF16 C; f_AVX512_BW C; f_AVX512_DQ C; f_AVX512_F C; f_AVX512_IFMA C; f_AVX512_VL C; f_AVX512_VNNI C]
-    else out in
+  let out := feat_step_avx512 C q ii mask high out in
   Some (if has_rt mask rt_vec512 then remove out [f_AVX512_VL C] else out)
   end.
 
